@@ -104,21 +104,9 @@ public:
 
     opval_t* MoveCodeBack(size_t backCount) override
     {
-        const size_t pos = curop - prevop;
-
-        size_t cback = backCount;
-        while (cback > prevopSize) {
-            cback -= prevopSize;
-        }
-
         opval_t* op = curop;
-        if (cback > pos) {
-            curop = prevop_last_ptr() - cback;
-        }
-        else {
-            curop -= cback;
-        }
-
+        const size_t pos = curop - prevop;
+        curop = prevop + ((pos + prevopSize - (backCount % prevopSize)) % prevopSize);
         return op;
     }
 
@@ -138,44 +126,28 @@ public:
 
     void GetValueAt(uintptr_t backOffset, void* value, size_t size) override
     {
-        size_t csize = size;
-        while (csize > prevopSize) {
-            csize -= prevopSize;
-        }
-
-        const size_t cback = backOffset > prevopSize ? prevopSize : backOffset;
+        // the ring holds the last prevopSize bytes that were written,
+        // read them the way the program manager reads at code_pos - backOffset
         const size_t pos = curop - prevop;
-        opval_t* off = curop;
-        if (cback > pos) {
-            off = prevop_last_ptr() - cback;
-        } else {
-            off = curop - cback;
-        }
-
-        const size_t remainingLast = prevopSize - pos;
-        if (csize > remainingLast)
+        size_t from = (pos + prevopSize - (backOffset % prevopSize)) % prevopSize;
+        opval_t* out = static_cast<opval_t*>(value);
+        for (size_t i = 0; i < size; ++i)
         {
-            memcpy(value, off, remainingLast);
-            memcpy(value, prevop, csize - remainingLast);
+            out[i] = prevop[from];
+            from = (from + 1) % prevopSize;
         }
-        else {
-            memcpy(value, off, csize);
-        }
-
     }
 
     void WriteOpcodeValue(const void* value, size_t size) override
     {
         info.progLength += size;
 
-        size_t csize = size;
-        while (csize > 0)
+        const opval_t* in = static_cast<const opval_t*>(value);
+        for (size_t i = 0; i < size; ++i)
         {
-            const size_t bytesToWrite = size > prevopSize ? prevopSize : size;
-            memcpy(curop, value, bytesToWrite);
-            const size_t newPos = (curop + bytesToWrite) - prevop;
+            *curop = in[i];
+            const size_t newPos = (curop + 1) - prevop;
             curop = prevop + (newPos % prevopSize);
-            csize -= bytesToWrite;
         }
     }
 
